@@ -525,13 +525,74 @@ class Interp:
         elif isinstance(st, ast.Continue):
             raise _Continue()
         elif isinstance(st, ast.Raise):
-            exc = ast.unparse(st.exc) if st.exc is not None else "re-raise"
+            if st.exc is None:
+                exc = "re-raise"
+            else:
+                f = st.exc.func if isinstance(st.exc, ast.Call) else st.exc
+                exc = ast.unparse(f).split(".")[-1]
             raise PathRaise(exc, self.where(st))
         elif isinstance(st, ast.Assert):
             if not self.truth(self.ev(st.test, env), st.test):
                 raise PathRaise("AssertionError", self.where(st))
         elif isinstance(st, ast.Pass):
             pass
+        elif isinstance(st, ast.While):
+            n_iter = 0
+            broke = False
+            while self.truth(self.ev(st.test, env), st.test):
+                n_iter += 1
+                if n_iter > 64:
+                    raise self.unsupported("while loop with more than 64 iterations", st)
+                try:
+                    self.block(st.body, env)
+                except _Break:
+                    broke = True
+                    break
+                except _Continue:
+                    continue
+            if not broke:
+                self.block(st.orelse, env)
+        elif isinstance(st, ast.Try):
+            try:
+                try:
+                    self.block(st.body, env)
+                except PathRaise as e:
+                    handled = False
+                    for h in st.handlers:
+                        names = []
+                        if h.type is None:
+                            names = None
+                        else:
+                            ts = h.type.elts if isinstance(h.type, ast.Tuple) else [h.type]
+                            names = [ast.unparse(t).split(".")[-1] for t in ts]
+                        exc_name = e.exc.split("(")[0]
+                        if names is None or exc_name in names or "Exception" in names or "BaseException" in names or \
+                                (exc_name in ("KeyError", "IndexError") and "LookupError" in names) or \
+                                (exc_name == "NotImplementedError" and "RuntimeError" in names):
+                            if h.name:
+                                env[h.name] = Opaque("exc", exc_name)
+                            self.block(h.body, env)
+                            handled = True
+                            break
+                    if not handled:
+                        raise
+                else:
+                    self.block(st.orelse, env)
+            finally:
+                if st.finalbody:
+                    self.block(st.finalbody, env)
+        elif isinstance(st, ast.Delete):
+            for t in st.targets:
+                if isinstance(t, ast.Name):
+                    env.pop(t.id, None)
+                elif isinstance(t, ast.Subscript):
+                    base = self.ev(t.value, env)
+                    if isinstance(base, dict):
+                        base.pop(self.hashable(self.ev(t.slice, env), t), None)
+                    else:
+                        raise self.unsupported("del of a sequence element", st)
+                else:
+                    raise self.unsupported("del target", st)
         elif isinstance(st, ast.With):
             for item in st.items:
                 v = self.ev(item.context_expr, env)
@@ -947,6 +1008,28 @@ class Interp:
             return {ast.BitXor: a ^ b, ast.BitAnd: a & b, ast.BitOr: a | b}[op]
         if isinstance(a, str) and op is ast.Add and isinstance(b, str):
             return a + b
+        if isinstance(a, str) and op is ast.Mult and isinstance(b, Poly) and b.const_value() is not None:
+            return a * int(b.const_value())
+        if isinstance(a, str) and op is ast.Mod:
+            import re as _re
+            vals = list(b) if isinstance(b, tuple) else [b]
+            out, k, pos = [], 0, 0
+            for m in _re.finditer(r"%(?:\((\w+)\))?([-+ #0]*)(\d+|\*)?(?:\.(\d+))?([sdrfgeEGi%])", a):
+                out.append(a[pos:m.start()])
+                pos = m.end()
+                if m.group(5) == "%":
+                    out.append("%")
+                    continue
+                if k >= len(vals):
+                    raise PathRaise("TypeError(not enough arguments for format string)", self.where(n))
+                v = vals[k]
+                k += 1
+                if isinstance(v, (Poly, Wrapped)) and (m.group(5) not in ("s", "r") or m.group(3) or m.group(4)):
+                    if not (m.group(5) in ("d", "i") and v.key() in self.int_tokens):
+                        raise LossyOperation("number formatted with %%%s (not the shortest round-trip repr)" % m.group(5), self.where(n))
+                out.append(self.render(v, n))
+            out.append(a[pos:])
+            return "".join(out)
         if isinstance(a, tuple) and isinstance(b, tuple) and op is ast.Add:
             return a + b
         if isinstance(a, list) and isinstance(b, list) and op is ast.Add:
@@ -1447,17 +1530,54 @@ class Interp:
             return sum(v.flat(), Poly())
         if name == "round":
             raise LossyOperation("ndarray.round", self.where(n))
-        if name in ("tocsr", "tocsc", "tolil", "todense", "toarray", "tocoo"):
+        if name in ("tocsr", "tocsc", "tolil", "todense", "toarray", "tocoo", "squeeze", "conj", "conjugate"):
             return v
+        if name == "all":
+            return all(self.truth(x, n) for x in v.flat())
+        if name == "item":
+            fl = v.flat()
+            if len(fl) == 1 and not args:
+                return fl[0]
+            if args:
+                return fl[self.intval(args[0], n)]
+            raise PathRaise("ValueError(item)", self.where(n))
+        if name in ("max", "min"):
+            return self.builtin(name, [v.flat()], {}, n, {})
+        if name == "fill":
+            x = self.scalar(args[0], n)
+            if v.ndim == 2:
+                for r in v.data:
+                    r[:] = [x] * len(r)
+            else:
+                v.data[:] = [x] * len(v.data)
+            return None
         if name == "any":
-            nz = [x for x in v.flat() if not x.is_zero()]
-            if not nz:
-                return False
-            raise self.unsupported("ndarray.any() on symbolic entries", n)
+            return any(self.truth(x, n) for x in v.flat())
         raise self.unsupported("ndarray method %s" % name, n)
 
     def py_method(self, v, name, args, kw, n):
+        if isinstance(v, (list, tuple)) and name in ("index", "count"):
+            hits = [i for i, x in enumerate(v) if self.equal(x, args[0], n)]
+            if name == "count":
+                return Poly.const(len(hits))
+            if not hits:
+                raise PathRaise("ValueError(not in list)", self.where(n))
+            return Poly.const(hits[0])
         if isinstance(v, list):
+            if name == "pop":
+                try:
+                    return v.pop(self.intval(args[0], n)) if args else v.pop()
+                except IndexError:
+                    raise PathRaise("IndexError", self.where(n))
+            if name == "insert":
+                v.insert(self.intval(args[0], n), args[1])
+                return None
+            if name == "reverse":
+                v.reverse()
+                return None
+            if name == "clear":
+                del v[:]
+                return None
             if name == "append":
                 v.append(args[0])
                 return None
@@ -1492,6 +1612,22 @@ class Interp:
                 return [self.unhash(k) for k in v.keys()]
             if name == "get":
                 return v.get(self.hashable(args[0], n), args[1] if len(args) > 1 else None)
+            if name == "setdefault":
+                return v.setdefault(self.hashable(args[0], n), args[1] if len(args) > 1 else None)
+            if name == "pop":
+                k_ = self.hashable(args[0], n)
+                if k_ in v:
+                    return v.pop(k_)
+                if len(args) > 1:
+                    return args[1]
+                raise PathRaise("KeyError", self.where(n))
+            if name == "update":
+                other = args[0]
+                if isinstance(other, dict):
+                    v.update(other)
+                    return None
+            if name == "copy":
+                return dict(v)
         if isinstance(v, str):
             if name == "format":
                 return self.str_format(v, args, kw, n)
@@ -1800,7 +1936,33 @@ class Interp:
                 self.comp(gens, i + 1, env, emit)
 
     def ev_JoinedStr(self, n, env):
-        return "<fstring>"
+        out = []
+        for v in n.values:
+            if isinstance(v, ast.Constant):
+                out.append(str(v.value))
+            elif isinstance(v, ast.FormattedValue):
+                val = self.ev(v.value, env)
+                spec = ""
+                if v.format_spec is not None:
+                    spec = self.ev_JoinedStr(v.format_spec, env)
+                conv = {-1: None, 115: "s", 114: "r", 97: "a"}.get(v.conversion, None)
+                if isinstance(val, (Poly, Wrapped)) and (spec not in ("", "r", "s", ".17g", ".17e", ".16e") or conv == "a"):
+                    raise LossyOperation("number formatted with format spec %r (not the shortest round-trip repr)" % spec, self.where(n))
+                out.append(self.render(val, n))
+            else:
+                raise self.unsupported("f-string part", n)
+        return "".join(out)
+
+    def ev_Lambda(self, n, env):
+        fn = ast.FunctionDef(name="<lambda>", args=n.args, body=[ast.Return(value=n.body, lineno=n.lineno)], decorator_list=[], lineno=n.lineno)
+        fn._gs_module = self.module_of_current()
+        fn._gs_class = None
+        return Opaque("closure", fn, env)
+
+    def ev_NamedExpr(self, n, env):
+        v = self.ev(n.value, env)
+        self.assign(n.target, v, env)
+        return v
 
     # ------------------------------------------------------------------------------------ numpy
     def check_dtype(self, kw, n):
@@ -2097,6 +2259,73 @@ class Interp:
         if name == "count_nonzero":
             v = self.to_arr(args[0], n)
             return Poly.const(sum(1 for x in v.flat() if self.truth(x, n)))
+        if name == "append":
+            a, b = self.to_arr(args[0], n), args[1]
+            bl = self.to_arr(b, n).flat() if isinstance(b, (Arr, list, tuple)) else [self.scalar(b, n)]
+            return Arr(a.flat() + bl, 1)
+        if name == "full":
+            shp = args[0]
+            fill = self.scalar(args[1], n)
+            dims = [self.intval(x, n) for x in shp] if isinstance(shp, (tuple, list)) else [self.intval(shp, n)]
+            if len(dims) == 1:
+                return Arr([fill for _ in range(dims[0])], 1)
+            if len(dims) == 2:
+                return Arr([[fill for _ in range(dims[1])] for _ in range(dims[0])], 2)
+        if name == "arange":
+            iv = [self.intval(a, n) for a in args]
+            return Arr([Poly.const(i) for i in range(*iv)], 1)
+        if name in ("atleast_1d", "squeeze", "ravel", "asfarray"):
+            v = args[0]
+            if isinstance(v, (Poly, Wrapped)):
+                return Arr([self.scalar(v, n)], 1)
+            a = self.to_arr(v, n)
+            return Arr(a.flat(), 1) if name in ("ravel",) or (name == "squeeze" and 1 in a.shape and a.ndim == 2) else a
+        if name == "atleast_2d":
+            a = self.to_arr(args[0], n)
+            return a if a.ndim == 2 else Arr([list(a.data)], 2)
+        if name in ("prod",):
+            acc = Poly.const(1)
+            for x in self.to_arr(args[0], n).flat():
+                acc = acc * x
+            return acc
+        if name == "mean":
+            fl = self.to_arr(args[0], n).flat()
+            return sum(fl, Poly()).scale(Fraction(1, len(fl)))
+        if name in ("flip", "flipud"):
+            a = self.to_arr(args[0], n)
+            return Arr(list(reversed(a.data)), a.ndim)
+        if name == "roll":
+            a = self.to_arr(args[0], n)
+            k = self.intval(args[1], n)
+            if a.ndim == 1 and a.data:
+                k %= len(a.data)
+                return Arr(a.data[-k:] + a.data[:-k] if k else list(a.data), 1)
+        if name == "fsum":
+            return sum((self.scalar(x, n) for x in self.iterate(args[0], n)), Poly())
+        if name == "hypot":
+            x, y = self.scalar(args[0], n), self.scalar(args[1], n)
+            return poly.atom("norm", x * x + y * y)
+        if name == "isfinite" or name == "isnan":
+            return name == "isfinite"
+        if name == "block":
+            rows = args[0]
+            if isinstance(rows, list) and rows and all(isinstance(r, list) for r in rows):
+                out = []
+                for r in rows:
+                    parts = [self.to_arr(x, n) if not isinstance(x, (Poly, Wrapped)) else Arr([[self.scalar(x, n)]], 2) for x in r]
+                    parts = [p_ if p_.ndim == 2 else Arr([list(p_.data)], 2) for p_ in parts]
+                    h = parts[0].shape[0]
+                    if any(p_.shape[0] != h for p_ in parts):
+                        raise PathRaise("ValueError(np.block shapes)", self.where(n))
+                    for i in range(h):
+                        out.append(sum((p_.data[i] for p_ in parts), []))
+                return Arr(out, 2)
+            if isinstance(rows, list):
+                parts = [self.to_arr(x, n) if not isinstance(x, (Poly, Wrapped)) else Arr([self.scalar(x, n)], 1) for x in rows]
+                if all(p_.ndim == 1 for p_ in parts):
+                    return Arr([x for p_ in parts for x in p_.data], 1)
+                if all(p_.ndim == 2 for p_ in parts):
+                    return Arr([sum((p_.data[i] for p_ in parts), []) for i in range(parts[0].shape[0])], 2)
         if name == "array_equal":
             a, b = self.to_arr(args[0], n), self.to_arr(args[1], n)
             if a.shape != b.shape:
@@ -2214,7 +2443,7 @@ def _dotp(r, c):
 
 
 OPNAME = {ast.Lt: "<", ast.LtE: "<=", ast.Gt: ">", ast.GtE: ">=", ast.Eq: "==", ast.NotEq: "!="}
-ARR_METHODS = {"tocsr", "tocsc", "tolil", "todense", "toarray", "tocoo", "any", "view", "copy", "dot", "transpose", "flatten", "ravel", "tolist", "astype", "reshape", "sum", "round"}
+ARR_METHODS = {"squeeze", "conj", "conjugate", "all", "item", "max", "min", "fill", "tocsr", "tocsc", "tolil", "todense", "toarray", "tocoo", "any", "view", "copy", "dot", "transpose", "flatten", "ravel", "tolist", "astype", "reshape", "sum", "round"}
 BUILTIN_NAMES = {"getattr", "hasattr", "setattr", "next", "iter", "id", "abs", "bool", "open", "str", "repr", "set", "frozenset", "dict", "isinstance", "issubclass", "type", "len", "range", "zip", "enumerate", "reversed", "list", "tuple",
                  "all", "any", "sum", "max", "min", "super", "print", "round", "int", "abs", "NotImplementedError"}
 
